@@ -75,6 +75,35 @@ def short_fn(fn):
     return s
 
 
+_FUNC_HEAD = re.compile(r"^[A-Za-z_][^;]*?\b([A-Za-z_]\w*)\s*\([^;]*$")
+
+
+def enclosing_function(path, line):
+    """Name of the function whose (non-indented) head precedes `line` in `path` (for OpenMP outlined frames)."""
+    try:
+        with open(path, errors="replace") as f:
+            lines = f.readlines()
+    except OSError:
+        return None
+    for i in range(min(line, len(lines)) - 1, -1, -1):
+        ln = lines[i]
+        if ln[:1] in " \t#/{}*\n" or ln.startswith("template") or ln.startswith("namespace"):
+            continue
+        m = _FUNC_HEAD.match(ln.rstrip())
+        if m:
+            return m.group(1)
+    return None
+
+
+def repo_frame_name(fn, path, line):
+    name = short_fn(fn)
+    if ".omp_outlined" in name or name.startswith("."):
+        enc = enclosing_function(path, int(line))
+        if enc:
+            return enc + "[omp]"
+    return name
+
+
 def parse_sanitizer_log(text, repo):
     """Returns dict(kind, frame, file) for the first report in a sanitizer/abort log."""
     kind = None
@@ -108,7 +137,7 @@ def parse_sanitizer_log(text, repo):
             continue
         path = os.path.normpath(fm.group(3))
         if path.startswith(inc) or path.startswith(cli):
-            frame = short_fn(fm.group(2))
+            frame = repo_frame_name(fm.group(2), path, fm.group(4))
             ffile = os.path.relpath(path, repo)
             break
         if first_user is None and "/verif/harness" in path:
@@ -222,17 +251,27 @@ class ShardRunner:
         with ThreadPoolExecutor(max_workers=self.jobs) as ex:
             for part in ex.map(lambda a: self._run_list(a[0], a[1]), list(enumerate(shards))):
                 records.update(part)
-        # timeouts: re-run once alone with 4x budget; only a second timeout is reported
+        # timeouts: re-run once alone with 4x budget; only a second timeout is reported as a hang.
+        # At most 3 re-runs per context (method), in parallel; the others stay inconclusive ("timeout").
         bycid = {c["id"]: c for c in self.cases}
         tos = [cid for cid, r in records.items() if r.get("_status") == "timeout"]
-        for n, cid in enumerate(tos):
-            again = self._run_list(1000 + n, [bycid[cid]], timeout_mult=4)
-            r2 = again.get(cid)
-            if r2 is None:
-                continue
-            if r2.get("_status") == "timeout":
-                r2["_status"] = "hang"
-            else:
-                r2["_retimed"] = True
-            records[cid] = r2
+        perctx = {}
+        chosen = []
+        for cid in tos:
+            ctx = bycid[cid].get("method") or bycid[cid].get("ctx") or "-"
+            if perctx.get(ctx, 0) < 3:
+                perctx[ctx] = perctx.get(ctx, 0) + 1
+                chosen.append(cid)
+        if chosen:
+            with ThreadPoolExecutor(max_workers=min(16, len(chosen))) as ex:
+                parts = list(ex.map(lambda a: self._run_list(1000 + a[0], [bycid[a[1]]], 4), list(enumerate(chosen))))
+            for cid, again in zip(chosen, parts):
+                r2 = again.get(cid)
+                if r2 is None:
+                    continue
+                if r2.get("_status") == "timeout":
+                    r2["_status"] = "hang"
+                else:
+                    r2["_retimed"] = True
+                records[cid] = r2
         return records
